@@ -22,7 +22,9 @@ Record child_ops := ChildOps {
   co_term : rnode -> bool;                        (* backmp11: TerminateFlag active (recursive) *)
   co_intr : rnode -> bool;                        (* backmp11: InterruptedFlag active (recursive) *)
   co_endintr : rnode -> nat -> bool;              (* backmp11: EndInterruptFlag<E> active (recursive) *)
-  co_defers : rnode -> nat -> bool                (* backmp11: some active state defers the event type (recursive) *)
+  co_defers : rnode -> nat -> bool;               (* backmp11: some active state defers the event type (recursive) *)
+  co_flag_or : rnode -> nat -> bool;              (* is_flag_active<F>() / <F, Flag_OR> *)
+  co_flag_and : rnode -> nat -> bool              (* is_flag_active<F, Flag_AND> *)
 }.
 
 Definition is_trnone (t:trigger) : bool := match t with TrNone => true | _ => false end.
@@ -39,6 +41,18 @@ Definition is11 : bool := match c_be cf with Back11 => true | _ => false end.
 Definition chain_continue (res:nat) : bool := tab1 (if is11 then back11_chain_continue else back_chain_continue) res.
 Definition chain_merge (res sub:nat) : nat := tab2 (if is11 then back11_chain_merge else back_chain_merge) res sub.
 Definition internal_tried (res:nat) : bool := tab1 (if is11 then back11_internal_tried else back_internal_tried) res.
+
+(* user flags: flag_true if the active state carries the flag, otherwise a submachine state forwards to the
+   submachine's is_flag_active<Flag>() (OR); folded over the regions with OR resp. AND *)
+Definition has_flag (st:state) (f:nat) : bool := memb f (s_flags st).
+Definition flag_entry (rn:rnode) (f s:nat) : bool :=
+  has_flag (get_state mc s) f ||
+  match child s, nth s (kids rn) None with
+  | Some co, Some kn => co_flag_or co kn f
+  | _, _ => false
+  end.
+Definition back_flag_or (rn:rnode) (f:nat) : bool := existsb (flag_entry rn f) (act rn).
+Definition back_flag_and (rn:rnode) (f:nat) : bool := forallb (flag_entry rn f) (act rn).
 
 Definition SRC_DM := bit_or SRC_DIRECT SRC_MSG_QUEUE.
 Definition SRC_DD := bit_or SRC_DIRECT SRC_DEFERRED.
@@ -412,6 +426,7 @@ Definition back_ops : child_ops :=
            cb_enqueue
            (fun fuel maxev => if Nat.eqb maxev 0 then drain_msgq (pei fuel) fuel else drain_msgq (pei fuel) 1)
            level_trigs
-           (fun _ => false) (fun _ => false) (fun _ _ => false) (fun _ _ => false).
+           (fun _ => false) (fun _ => false) (fun _ _ => false) (fun _ _ => false)
+           back_flag_or back_flag_and.
 
 End BackLevel.
